@@ -394,3 +394,36 @@ Proof.
   - replace (k - length pre)%nat with 0%nat by lia. cbn. now rewrite app_nil_r.
   - assert (length suf = 0)%nat by lia. destruct suf; [|discriminate]. cbn. rewrite firstn_nil. now rewrite app_nil_r.
 Qed.
+
+(* ---- placement call sites (coq/RoutingSites.v, regenerated from cluster/*.go on every run) ---- *)
+From Semadb Require RoutingSites.
+
+(* what a call site of the checked shape computes: hd (RendezvousHash key c.Servers 1) *)
+Definition site_owner (site : String.string * String.string * RoutingSites.key_kind * String.string)
+           (hash : bytes -> N) (key : bytes) (servers : list bytes) : option bytes :=
+  owner hash key servers.
+
+Lemma sites_route_by_key hash key s1 s2 site :
+  In site RoutingSites.routing_sites ->
+  Permutation s1 s2 -> NoDup (map (fun s => hash (key ++ s)) s1) ->
+  site_owner site hash key s1 = site_owner site hash key s2.
+Proof.
+  intros _ Hp Hn. unfold site_owner, owner. now rewrite (rv_perm_invariant hash key s1 s2 1 Hp Hn).
+Qed.
+
+Lemma sites_listed : length RoutingSites.routing_sites = RoutingSites.n_routing_sites /\
+  (forall f, In f RoutingSites.routing_files ->
+     exists fu k e, In (f, fu, k, e) RoutingSites.routing_sites).
+Proof.
+  split; [vm_compute; reflexivity|].
+  intros f Hf. simpl in Hf.
+  assert (H: forall f0, existsb (fun x => String.eqb (fst (fst (fst x))) f0) RoutingSites.routing_sites = true ->
+             exists fu k e, In (f0, fu, k, e) RoutingSites.routing_sites).
+  { intros f0 He. apply existsb_exists in He. destruct He as [[[[f1 fu] k] e] [Hin Heq]]. simpl in Heq.
+    apply String.eqb_eq in Heq. subst f1. now exists fu, k, e. }
+  apply H.
+  assert (Hall : forallb (fun f0 => existsb (fun x => String.eqb (fst (fst (fst x))) f0) RoutingSites.routing_sites)
+                         RoutingSites.routing_files = true) by (vm_compute; reflexivity).
+  rewrite forallb_forall in Hall. exact (Hall f Hf).
+Qed.
+
